@@ -20,6 +20,8 @@ Per message kind K and stack S:
 import Gotlcp.Lemmas.Codec
 import Gotlcp.Lemmas.CodecDtlcp
 import Gotlcp.Lemmas.CodecHello
+import Gotlcp.Lemmas.CodecHelloStrict
+import Gotlcp.Lemmas.CodecHelloCanon
 import Gotlcp.Model.CodecParams
 
 set_option linter.unusedSimpArgs false
@@ -478,9 +480,11 @@ end Dtlcp
 
 /-! ## Hello messages (cryptobyte based; one body model shared by both stacks)
 
-Round trip through all seven client and three server extensions, and totality.  Strictness and
-re-encoding of the hellos are judged by the oracle's spec verdict on every generated case
-(`Spec.Codec.shape`, `strictClientHello`, `strictServerHello`) but are not proved here. -/
+Round trip through all seven client and three server extensions, totality, strictness (every
+extension loop consumed exactly the grammar; unknown extensions are opaque) and re-encoding: what
+the spec's strict decoders accept — known extensions at most once in the standard's order, host_name
+entries only, known identifier types, empty OCSP responder list — is decoded by the library to
+in-range fields that encode back to the same bytes. -/
 
 section Hello
 open Gotlcp.Lemmas.CodecHello
@@ -529,6 +533,50 @@ example : Spec.Codec.wfClientHello .dtlcp ⟨(1, 1), List.replicate 32 9, [], [0
 
 theorem C14_total_clientHello_dtlcp (b : Bytes) : Model.CodecDtlcp.decClientHello codesD b ≠ .panic :=
   total_clientHello_dtlcp codesD (ready _ (by decide)) b
+
+theorem C14_strict_serverHello_tlcp (b : Bytes) (m : ServerHello) (h : unmarshalServerHello codesT b = .ok m) :
+    Spec.Codec.shape .tlcp .serverHello b = true :=
+  Lemmas.CodecHelloStrict.strict_serverHello_tlcp codesT helloCodesT (by decide) h
+
+theorem C14_strict_clientHello_tlcp (b : Bytes) (m : ClientHello) (h : unmarshalClientHello codesT b = .ok m) :
+    Spec.Codec.shape .tlcp .clientHello b = true :=
+  Lemmas.CodecHelloStrict.strict_clientHello_tlcp codesT helloCodesT (by decide) h
+
+theorem C14_strict_serverHello_dtlcp (b : Bytes) (x : DHdr × ServerHello)
+    (h : Model.CodecDtlcp.decServerHello codesD b = .ok x) : Spec.Codec.shape .dtlcp .serverHello b = true :=
+  Lemmas.CodecHelloStrict.strict_serverHello_dtlcp codesD helloCodesD (ready _ (by decide)) h
+
+theorem C14_strict_clientHello_dtlcp (b : Bytes) (x : DHdr × ClientHello)
+    (h : Model.CodecDtlcp.decClientHello codesD b = .ok x) : Spec.Codec.shape .dtlcp .clientHello b = true :=
+  Lemmas.CodecHelloStrict.strict_clientHello_dtlcp codesD helloCodesD (ready _ (by decide)) h
+
+theorem C14_reencode_serverHello_tlcp (b : Bytes) (h : DHdr) (m : ServerHello)
+    (hs : Spec.Codec.strictServerHello .tlcp b = some (h, m)) :
+    encServerHello codesT m = some b ∧ unmarshalServerHello codesT b = .ok m ∧ Spec.Codec.wfServerHello m = true :=
+  Lemmas.CodecHelloCanon.canon_serverHello_tlcp codesT helloCodesT rfl hs
+
+theorem C14_reencode_clientHello_tlcp (b : Bytes) (h : DHdr) (m : ClientHello)
+    (hs : Spec.Codec.strictClientHello .tlcp b = some (h, m)) :
+    encClientHello codesT m = some b ∧ unmarshalClientHello codesT b = .ok m ∧
+      Spec.Codec.wfClientHello .tlcp m = true :=
+  Lemmas.CodecHelloCanon.canon_clientHello_tlcp codesT helloCodesT (by decide) (by decide) rfl hs
+
+theorem C14_reencode_serverHello_dtlcp (b : Bytes) (h : DHdr) (m : ServerHello)
+    (hs : Spec.Codec.strictServerHello .dtlcp b = some (h, m)) :
+    Model.CodecDtlcp.encServerHello codesD h m = some b ∧ Model.CodecDtlcp.decServerHello codesD b = .ok (h, m) ∧
+      Spec.Codec.wfServerHello m = true :=
+  Lemmas.CodecHelloCanon.canon_serverHello_dtlcp codesD helloCodesD (ready _ (by decide)) rfl hs
+
+theorem C14_reencode_clientHello_dtlcp (b : Bytes) (h : DHdr) (m : ClientHello)
+    (hs : Spec.Codec.strictClientHello .dtlcp b = some (h, m)) :
+    Model.CodecDtlcp.encClientHello codesD h m = some b ∧ Model.CodecDtlcp.decClientHello codesD b = .ok (h, m) ∧
+      Spec.Codec.wfClientHello .dtlcp m = true :=
+  Lemmas.CodecHelloCanon.canon_clientHello_dtlcp codesD helloCodesD (by decide) (by decide) (ready _ (by decide)) rfl hs
+
+/-- the strict decoders are not vacuous: a full ClientHello with all seven extensions is canonical -/
+example : (Spec.Codec.strictClientHello .tlcp
+    ([1, 0, 0, 63, 1, 1] ++ List.replicate 32 7 ++ [0, 0, 2, 0xe0, 0x53, 1, 0] ++
+      [0, 20, 0, 0, 0, 6, 0, 4, 0, 0, 1, 0x61, 0, 10, 0, 6, 0, 4, 0, 41, 0, 23])).isSome = true := by decide
 
 end Hello
 
